@@ -811,6 +811,25 @@ func (env *SpecEnv) evalCall(x *SExpr) Val {
 	case "trimprefix":
 		x, p := t0(0), t0(1)
 		return mkStr(ite(app("str.prefixof", p, x), app("str.substr", x, app("str.len", p), app("-", app("str.len", x), app("str.len", p))), x))
+	case "locked":
+		// locked(x.f): this goroutine holds the mutex in field f of the object x (ghost lock state)
+		if len(x.Args) != 1 || x.Args[0].Op != "sel" {
+			specFail("locked() expects a field expression x.f")
+		}
+		base := env.eval(x.Args[0].Args[0])
+		pt := derefType(base.T)
+		if pt == nil {
+			specFail("locked(): %s is not a pointer", x.Args[0].Args[0])
+		}
+		st, ok := pt.Underlying().(*types.Struct)
+		if !ok {
+			specFail("locked(): not a struct pointer")
+		}
+		idx, path := findField(st, x.Args[0].Name)
+		if idx < 0 || len(path) != 0 {
+			specFail("locked(): no direct field %s", x.Args[0].Name)
+		}
+		return mkBool(sel(env.st.mutexState(), app("mutex_addr", base.Terms[0], fmt.Sprint(idx))))
 	case "chancap":
 		return mkInt(app("chan_cap", t0(0)))
 	case "helptext":
